@@ -7,6 +7,7 @@ abscissae; that the solved system is (F + P) c = R; that the result is copied ou
 (alpha-normalised: locals by first appearance, parameters by position) with identities across statements tied by declaration.
 It does not decide what box(), slicemultiply(), kronecker_product(), divided_diffs() or the solver compute."""
 from .. import core
+from ..core import Poly
 from . import ts
 from . import uw
 
@@ -426,3 +427,85 @@ def run(P, C):
     gw3(P, C)
     gw4(P, C)
     gw5(P, C)
+    gw6(P, C)
+
+
+def gw6(P, C):
+    """GW-6: divided_diffs is de Boor's recurrence for the coefficients of the porder-th derivative (X.16)."""
+    C.rule("GW-6", "divided_diffs(order, porder, j, knots, out): with a = the porder-1 stencil at j+1 and b = the one at j, and "
+           "delta = (knots[j+order+1] - knots[j+porder]) / (order - (porder-1)), the result is out[0] = -b[0]/delta, "
+           "out[porder] = a[porder-1]/delta, out[i] = (a[i-1] - b[i])/delta for 0 < i < porder — the knot window of the denominator is what "
+           "makes the penalty the integral of the squared derivative on irregular knots (on uniform knots any window of that length gives "
+           "the same matrix)", floor=4)
+    f = P.one("divided_diffs", file_endswith="glam.c")
+    pn = [p["name"] for p in f.params]          # order, porder, j, knots, out
+    O, Pp, J = (Poly.atom(x) for x in pn[:3])
+    one = Poly.const(1)
+    rec = [(i, f.args(i)) for i, cal in f.calls() if cal and cal["name"] == f.name]
+    a_id = b_id = None
+    ok_rec = len(rec) == 2
+    for i, a in rec:
+        if core.poly(f, a[0]) != O or core.poly(f, a[1]) != Pp - one or f.render(a[3]) != pn[3]:
+            ok_rec = False
+            continue
+        tgt = f.strip(a[4])
+        vid = f.nodes[tgt]["decl"].get("id") if f.k(tgt) == "DeclRefExpr" else None
+        if core.poly(f, a[2]) == J + one:
+            a_id = vid
+        elif core.poly(f, a[2]) == J:
+            b_id = vid
+    ok_rec = ok_rec and a_id is not None and b_id is not None and a_id != b_id
+    C.ob("GW-6", "divided_diffs", "recursion", ok_rec, f.loc(rec[0][0]) if rec else f.where(),
+         "two stencils of order porder-1: at j+1 (a) and at j (b), same spline order and knots: %s" % ok_rec)
+    # delta
+    dl = [x for x in f.walk() if ts.assign_parts(f, x) and f.nodes[x].get("op") == "=" and f.k(f.strip(ts.assign_parts(f, x)[0])) == "DeclRefExpr" and
+          f.k(f.strip(ts.assign_parts(f, x)[1])) == "BinaryOperator" and f.nodes[f.strip(ts.assign_parts(f, x)[1])]["op"] == "/"]
+    ok_d = False
+    det = "no quotient assigned to a local"
+    delta = None
+    for x in dl:
+        q = f.nodes[f.strip(ts.assign_parts(f, x)[1])]
+        num, den = f.strip(q["ch"][0]), q["ch"][1]
+        if f.k(num) != "BinaryOperator" or f.nodes[num]["op"] != "-":
+            continue
+        subs = [f.strip(y) for y in f.nodes[num]["ch"]]
+        if not all(f.k(y) == "ArraySubscriptExpr" and f.render(f.nodes[y]["ch"][0]) == pn[3] for y in subs):
+            continue
+        hi, lo = (core.poly(f, f.nodes[y]["ch"][1]) for y in subs)
+        dp_ = core.poly(f, den)
+        ok_d = hi == J + O + one and lo == J + Pp and dp_ == O - Pp + one
+        det = "delta = (knots[%r] - knots[%r]) / (%r); required (knots[j+order+1] - knots[j+porder]) / (order-porder+1)" % (hi, lo, dp_)
+        delta = f.nodes[f.strip(ts.assign_parts(f, x)[0])]["decl"]["id"]
+    C.ob("GW-6", "divided_diffs", "knot-window", ok_d, f.loc(dl[0]) if dl else f.where(), det)
+    # result stores
+    got = {}
+    for x in f.walk():
+        ap = ts.assign_parts(f, x)
+        if not ap or ap[1] is None or f.nodes[x].get("op") != "=":
+            continue
+        l = f.strip(ap[0])
+        if f.k(l) == "ArraySubscriptExpr" and f.render(f.nodes[l]["ch"][0]) == pn[4]:
+            txt, order = f.alpha(x)
+            got[txt.replace(" ", "")] = order
+    names = {a_id: "A", b_id: "B", delta: "D"}
+
+    def norm(txt, order):
+        for k, vid in enumerate(order):
+            txt = txt.replace("v%d" % k, names.get(vid, "L%d" % k))
+        return txt
+    shapes = sorted(norm(t, o) for t, o in got.items())
+    want = sorted(["($4[0]=((-B[0])/D))", "($4[$1]=(A[($1-1)]/D))", "($4[L0]=((A[(L0-1)]-B[L0])/D))", "($4[0]=1)"])
+    ok_s = shapes == want
+    # the middle entries: i from 1 while i < porder
+    loop_ok = False
+    for x in f.walk():
+        if f.k(x) == "ForStmt":
+            ini = f.render(f.nodes[x]["init"]).replace(" ", "")
+            cond = f.alpha(f.nodes[x]["cond"])[0].replace(" ", "")
+            if ini.endswith("=1)") and cond == "(v0<$1)":
+                loop_ok = True
+    C.ob("GW-6", "divided_diffs", "stencil", ok_s and loop_ok, f.where(),
+         "out[0] = -b[0]/delta, out[porder] = a[porder-1]/delta, out[i] = (a[i-1]-b[i])/delta for i = 1..porder-1: %s (loop %s)" % (shapes if not ok_s else "matches", loop_ok))
+    base = [x for x in f.walk() if f.k(x) == "IfStmt" and f.alpha(f.nodes[x]["cond"])[0].replace(" ", "") == "($1==0)"]
+    ok_b = len(base) == 1 and any(f.alpha(y)[0].replace(" ", "") == "($4[0]=1)" for y in f.walk(f.nodes[base[0]]["then"]) if ts.assign_parts(f, y))
+    C.ob("GW-6", "divided_diffs", "base-case", ok_b, f.loc(base[0]) if base else f.where(), "porder == 0: the stencil is [1]")
